@@ -517,14 +517,13 @@ func implStruct(f []string) string {
 			o = "-"
 			if tok != "" {
 				o = tok
-			} else if otto.VerifFieldIndexByName(st, a[1]) == nil {
+			} else if otto.VerifFieldIndexByName(st, a[1]) == nil && !goNameField(st, a[1]) {
+				// neither the tag lookup nor Go's FieldByName knows the name: the write lands on the wrapper
 				o = "shadow"
 				if render(ptr.Elem()) != before {
 					o = "shadow-but-go-changed"
 				}
-				if otto.VerifFieldIndexByName(st, a[1]) == nil && !goNameField(st, a[1]) {
-					shadowed[a[1]] = true
-				}
+				shadowed[a[1]] = true
 			}
 		case "gr":
 			v := ptr.Elem()
